@@ -40,6 +40,16 @@ func (s *CDX) Serialize(bom *sbom.Document, _ *native.SerializeOptions, _ interf
 	// Load the context with the CDX value. We initialize a context here
 	// but we should get it as part of the method to capture cancelations
 	// from the CLI or REST API.
+	if bom == nil {
+		return nil, errors.New("document is nil, unable to serialize to CycloneDX")
+	}
+	if bom.Metadata == nil {
+		return nil, errors.New("document metadata is nil, unable to serialize to CycloneDX")
+	}
+	if bom.NodeList == nil {
+		return nil, errors.New("document node list is nil, unable to serialize to CycloneDX")
+	}
+
 	state := newSerializerCDXState()
 	ctx := context.WithValue(context.Background(), stateKey, state)
 
@@ -94,9 +104,13 @@ func (s *CDX) Serialize(bom *sbom.Document, _ *native.SerializeOptions, _ interf
 	for _, dt := range bom.Metadata.DocumentTypes {
 		var lfc cdx.Lifecycle
 
+		if dt == nil {
+			continue
+		}
+
 		if dt.Type == nil {
-			lfc.Name = *dt.Name
-			lfc.Description = *dt.Description
+			lfc.Name = dt.GetName()
+			lfc.Description = dt.GetDescription()
 		} else {
 			lfc.Phase, err = sbomTypeToPhase(dt)
 			if err != nil {
@@ -111,9 +125,9 @@ func (s *CDX) Serialize(bom *sbom.Document, _ *native.SerializeOptions, _ interf
 		var authors []cdx.OrganizationalContact
 		for _, bomauthor := range bom.GetMetadata().GetAuthors() {
 			authors = append(authors, cdx.OrganizationalContact{
-				Name:  bomauthor.Name,
-				Email: bomauthor.Email,
-				Phone: bomauthor.Phone,
+				Name:  bomauthor.GetName(),
+				Email: bomauthor.GetEmail(),
+				Phone: bomauthor.GetPhone(),
 			})
 		}
 		metadata.Authors = &authors
@@ -123,8 +137,8 @@ func (s *CDX) Serialize(bom *sbom.Document, _ *native.SerializeOptions, _ interf
 		var tools []cdx.Tool //nolint:staticcheck
 		for _, bomtool := range bom.GetMetadata().GetTools() {
 			tools = append(tools, cdx.Tool{ //nolint:staticcheck // Tool is needed for older cdx versions
-				Name:    bomtool.Name,
-				Version: bomtool.Version,
+				Name:    bomtool.GetName(),
+				Version: bomtool.GetVersion(),
 			})
 		}
 		metadata.Tools = &cdx.ToolsChoice{
@@ -167,10 +181,10 @@ func sbomTypeToPhase(dt *sbom.DocumentType) (cdx.LifecyclePhase, error) {
 	case sbom.DocumentType_DISCOVERY:
 		return cdx.LifecyclePhaseDiscovery, nil
 	case sbom.DocumentType_OTHER:
-		return cdx.LifecyclePhase(strings.ToLower(*dt.Name)), nil
+		return cdx.LifecyclePhase(strings.ToLower(dt.GetName())), nil
 	}
 	// TODO(option): Dont err but assign to type OTHER
-	return "", fmt.Errorf("unknown document type %s", *dt.Name)
+	return "", fmt.Errorf("unknown document type %s", dt.GetName())
 }
 
 // clearAutoRefs
@@ -220,6 +234,9 @@ func (s *CDX) dependencies(ctx context.Context, bom *sbom.Document) ([]cdx.Depen
 
 	for _, e := range bom.NodeList.Edges {
 		e := e
+		if e == nil {
+			continue
+		}
 		if _, ok := state.addedDict[e.From]; ok {
 			continue
 		}
@@ -338,6 +355,9 @@ func (s *CDX) nodeToComponent(n *sbom.Node) *cdx.Component {
 
 	if n.ExternalReferences != nil {
 		for _, er := range n.ExternalReferences {
+			if er == nil {
+				continue
+			}
 			cdxRef := cdx.ExternalReference{
 				URL:     er.Url,
 				Comment: er.Comment,
@@ -385,7 +405,7 @@ func (s *CDX) nodeToComponent(n *sbom.Node) *cdx.Component {
 		oe := cdx.OrganizationalEntity{
 			Name: nodesupplier.GetName(),
 		}
-		if nodesupplier.Contacts != nil {
+		if nodesupplier.GetContacts() != nil {
 			var contacts []cdx.OrganizationalContact
 			for _, nodecontact := range nodesupplier.GetContacts() {
 				newcontact := cdx.OrganizationalContact{
